@@ -200,6 +200,24 @@ def chk_airy(inp):
             return bad("Airy pattern does not peak on the axis sample (N=%d)" % N, [int(v) for v in k], [N // 2, N // 2])
 
 
+def chk_nearunit(inp):
+    """two-step Fresnel with d2 equal to d1 up to rounding (e.g. d2 computed as (0.1 + 0.2) * 1e-2 for d1 = 0.3e-2): the partial distances
+    z / (1 - m) are ~ z / eps and the result loses all accuracy, silently (listed finding)"""
+    N, wvl, d, w0, z = 128, 1e-6, 0.3e-2, 15e-3, 1152.
+    U0 = beam(N, d, w0, wvl, 0.)
+    want = beam(N, d, w0, wvl, z)
+    exact = OP.twoStepFresnel(U0, wvl, d, 0.3e-2, z)
+    e0 = abs(exact - want).max() / abs(want).max()
+    if not e0 <= 1e-6:
+        return bad("twoStepFresnel at unit magnification does not reproduce the analytic Gaussian beam", float(e0), 0.0)
+    d2 = (0.1 + 0.2) * 1e-2          # one ulp away from 0.3e-2
+    got = OP.twoStepFresnel(U0, wvl, d, d2, z)
+    e = abs(got - want).max() / abs(want).max()
+    if not e <= 1e-6:
+        return bad("twoStepFresnel with d2 = %r, d1 = %r (equal up to rounding): field differs from the analytic Gaussian beam / from the d2 == d1 result by %.3g of the peak" % (d2, d, e), float(e), "< 1e-6",
+                   finding="C11-twostep-near-unit-magnification")
+
+
 def fam(tier, seed):
     for N in (2, 4, 8, 16):
         for (z1, z2) in ((1.2, -0.7), (3.0, 5.0), (-2.0, -1.0)):
@@ -208,6 +226,6 @@ def fam(tier, seed):
 
 
 CLAUSES = {"group.zero": (chk_zero, fam), "group.additive": (chk_additive, fam), "group.magnification": (chk_mag, fam), "agree.twostep-chain": (chk_chain, fam),
-           "orientation": (chk_orientation, lambda t, s: [None]), "gaussian": (chk_gaussian, lambda t, s: [None]), "airy": (chk_airy, lambda t, s: [None])}
+           "orientation": (chk_orientation, lambda t, s: [None]), "gaussian": (chk_gaussian, lambda t, s: [None]), "airy": (chk_airy, lambda t, s: [None]), "nearunit": (chk_nearunit, lambda t, s: [None])}
 if __name__ == "__main__":
     main(CLAUSES)
